@@ -97,7 +97,7 @@ def reviewedTests : List (String × String) := [
   ("reject:cache from different laze version", "keyValid: r.uuid == k.uuid"),
   ("deserialize?", "CacheFile.torn => hit = false"),
   ("reject:partition values don't match", "keyValid: r.partition == k.partition"),
-  ("reject:partitioned builders/apps don't match", "keyValid: partitionOk r k (with a partition the selectors must be the same sets)"),
+  ("reject:partitioned builders/apps don't match", "keyValid: partitionOk r k (with a partition: the same builders in the same order, the same set of apps)"),
   ("reject:builders don't match", "keyValid: r.builders.isSuperset k.builders"),
   ("reject:apps don't match", "keyValid: r.apps.isSuperset k.apps"),
   ("reject:unknown builders requested", "keyValid: k.namesKnown"),
@@ -118,7 +118,7 @@ def reviewedConds : List String := [
   "if generator.disable_cache {",
   "if &build_uuid != build_uuid::get().as_bytes() {",
   "if generator.partitioner != res.partitioner {",
-  "if generator.partitioner.is_some() && (res.builders != generator.builders || res.apps != generator.apps) {",
+  "if generator.partitioner.is_some() && (!res.builders.same_sequence(&generator.builders) || res.apps != generator.apps) {",
   "if !res.builders.is_superset(&generator.builders) {",
   "if !res.apps.is_superset(&generator.apps) {",
   "if let Selector::Some(builders) = &generator.builders {",
@@ -150,6 +150,9 @@ theorem keyValid_components_matter :
     keyValid sampleKey { sampleKey with define := ["A=1"] } = false ∧
     keyValid sampleKey { sampleKey with namesKnown := false } = false ∧
     keyValid { sampleKey with partition := some "1:2" } { sampleKey with partition := some "1:2", apps := .some ["a"] } = false ∧
+    keyValid { sampleKey with partition := some "1:2", builders := .some ["x", "y"] }
+             { sampleKey with partition := some "1:2", builders := .some ["y", "x"] } = false ∧
+    keyValid { sampleKey with builders := .some ["x", "y"] } { sampleKey with builders := .some ["y", "x"] } = true ∧
     keyValid sampleKey { sampleKey with apps := .some ["a"] } = true ∧
     keyValid sampleKey sampleKey = true := by
   decide
